@@ -72,7 +72,8 @@ Seg(i) == LET vs == {k \in i..(N-1) : Valid(k)} IN IF vs = {} THEN <<>>
           ELSE LET s == SetMin(vs)  e == StretchEnd(s)  x == Min2(e + p.sil, N - 1) IN
                Pieces(s, x, 0) \o Seg(x + 1)
 OutSE == [i \in 1..Len(out) |-> [start |-> out[i].start, end |-> out[i].end]]
-C04 == (done /\ p.imin <= 1) => OutSE = Seg(0)
+\* (a run that is over has asked the source for more until it answered end-of-stream: nothing after a falsy / odd frame is silently dropped)
+C04 == (done /\ p.imin <= 1) => (eos >= 1 /\ OutSE = Seg(0))
 
 \* Corollaries named in the statement, as separate formulas so that a failure names the clause.
 \* (The statement's "every valid frame of a stretch at least min_length long lies inside some token"
